@@ -973,6 +973,38 @@ class TestSHA256Checksum:
         assert resolved.num_rows == 1
         assert resolved.column("value")[0].as_py() == 42
 
+    def test_client_upload_pointer_carries_sha256(self) -> None:
+        """The HTTP client's upload-URL pointer carries the digest of the uploaded request body."""
+        import hashlib
+
+        from vgi_rpc.http._client import _build_pointer_request_body
+
+        batch = pa.RecordBatch.from_pydict({"value": [1, 2, 3]}, schema=_SCHEMA)
+        body = _serialize_ipc(_SCHEMA, [(batch, pa.KeyValueMetadata({b"vgi_rpc.method": b"m"}))])
+        pointer_body = _build_pointer_request_body(body, "https://mock.storage/download/1")
+
+        reader = ipc.open_stream(BytesIO(pointer_body))
+        pointer, cm = reader.read_next_batch_with_custom_metadata()
+        assert pointer.num_rows == 0
+        assert cm is not None
+        assert cm.get(LOCATION_KEY) == b"https://mock.storage/download/1"
+        assert cm.get(LOCATION_SHA256_KEY) == hashlib.sha256(body).hexdigest().encode()
+        assert cm.get(b"vgi_rpc.method") == b"m"
+
+        # ...and the server-side resolution accepts the intact upload and rejects a modified one
+        storage = MockStorage()
+        config = ExternalLocationConfig(storage=storage, max_retries=0)
+        storage.data["https://mock.storage/download/1"] = body
+        with _mock_aio(storage):
+            resolved, _ = resolve_external_location(pointer, cm, config)
+        assert resolved.column("value").to_pylist() == [1, 2, 3]
+        other = pa.RecordBatch.from_pydict({"value": [9, 9, 9]}, schema=_SCHEMA)
+        storage.data["https://mock.storage/download/1"] = _serialize_ipc(
+            _SCHEMA, [(other, pa.KeyValueMetadata({b"vgi_rpc.method": b"m"}))]
+        )
+        with _mock_aio(storage), pytest.raises(RuntimeError, match="SHA-256 checksum mismatch"):
+            resolve_external_location(pointer, cm, config)
+
     def test_sha256_roundtrip_with_compression(self) -> None:
         """SHA-256 checksum works correctly with zstd compression."""
         storage = MockStorage()
